@@ -142,24 +142,20 @@ def run_results(ctx, plist, name="results"):
 
 def gen_params(ctx):
     rng = ctx.rng("c04")
-    n = 16 if ctx.quick else 160
     out = []
-    for k in range(n):
-        double = bool(k % 2)
-        force = {}
-        if k % 4 in (2, 3):
-            force["nta"] = int(1 + (k // 4) % 2)
-            force["nx"] = int(rng.integers(12, 16))
-        p = calib.random_params(rng, double, quick=True, **force)
-        p["noise"] = float(rng.choice([0.0, 0.002, 0.01]))
-        if k % 8 == 5:
-            p["fix"] = "gamma"
-        if k % 8 == 6 and not double:
-            p["fix"], p["nmatch"] = "alpha", 0
-        if k % 8 == 7:
-            p["fix_var"] = 1e-6
-            p["fix"] = "alpha" if double else "dalpha"
-        out.append(p)
+    reps = 1 if ctx.quick else 10
+    for rep in range(reps):
+        for double in (False, True):
+            for nta, nt in ((0, 1), (1, 2), (2, 3), (2, 2)):
+                p = calib.random_params(rng, double, quick=True, nta=nta, nt=nt, nx=int(rng.integers(12, 16)) if nta == 0 else int(rng.integers(20, 26)),
+                                        noise=float(rng.choice([0.0, 0.002, 0.01])), ta_on_ref=bool(nta and rng.random() < 0.5))
+                out.append(p)
+            for fix, var in (("gamma", 0.0), ("alpha", 1e-6), ("dalpha" if not double else "alpha+gamma", 1e-6)):
+                p = calib.random_params(rng, double, quick=True, nta=int(rng.integers(0, 2)), nt=int(rng.integers(1, 4)), nx=int(rng.integers(14, 20)), noise=0.005)
+                p["fix"], p["fix_var"] = fix, var
+                if fix == "alpha" and not double:
+                    p["nmatch"] = 0
+                out.append(p)
     return out
 
 
